@@ -930,10 +930,13 @@ class MatrixOperator(Operator):
                 out[:] = self.matrix.dot(x)
             elif self.range.ndim == 1:
                 with writable_array(out) as out_arr:
-                    if out_arr.flags.c_contiguous:
+                    if (out_arr.flags.c_contiguous and
+                            out_arr.dtype == np.result_type(self.matrix.dtype,
+                                                            x.dtype)):
                         self.matrix.dot(x, out=out_arr)
                     else:
-                        # `dot` accepts only C-contiguous arrays as `out`
+                        # `dot` accepts only C-contiguous arrays of the
+                        # result data type as `out`
                         out_arr[:] = self.matrix.dot(x)
             else:
                 # Could use einsum to have out, but it's damn slow
